@@ -873,6 +873,9 @@ func main() {
 	if v := os.Getenv("C18_DEPTH"); v != "" {
 		fmt.Sscan(v, &depth)
 	}
+	// the 171 x 2 two-stream files of the namefold-pair family and the 36 files of
+	// the minifree family (whose dimension is in the INPUT): one level less
+	pairDepth := depth - 1
 	deadline = time.Now().Add(capDur)
 
 	// ---- the family ------------------------------------------------------
@@ -892,6 +895,9 @@ func main() {
 	addFam(cfbgen.FamilyLayout())
 	addFam(cfbgen.FamilyDirCount())
 	addFam(cfbgen.FamilyNames())
+	addFam(cfbgen.FamilyNameFold())
+	addFam(cfbgen.FamilyNameFoldPairs())
+	addFam(cfbgen.FamilyMiniFree())
 	addFam(cfbgen.FamilyStorage())
 	addFam(cfbgen.FamilyNestedSigName())
 	addFam(cfbgen.FamilyFatFull())
@@ -939,6 +945,9 @@ func main() {
 		}
 		if len(fc.data) > 12<<20 && fc.maxDepth > 2 {
 			fc.maxDepth = 2
+		}
+		if (fc.spec.Family == "namefold-pair" || fc.spec.Family == "minifree") && fc.maxDepth > pairDepth {
+			fc.maxDepth = pairDepth
 		}
 		if fc.spec.Family == "metasize" {
 			fc.maxDepth = metaDepth
@@ -1011,7 +1020,7 @@ func main() {
 		repeat  int
 	}
 	var pjobs []pjob
-	pipeFams := map[string]bool{"layout": true, "storage": true, "names": true, "nested-signame": true}
+	pipeFams := map[string]bool{"layout": true, "storage": true, "names": true, "nested-signame": true, "namefold": true, "minifree": thorough}
 	nPipeFiles := 0
 	for _, fc := range files {
 		if fc.unusable {
@@ -1087,10 +1096,22 @@ func main() {
 		"sizes_family":                  map[string]any{"ordered_tuples_up_to": 2, "multisets_up_to": map[bool]int{false: 3, true: 4}[thorough]},
 		"history_depth":                 depth,
 		"history_depth_files_over_1MiB": bigDepth,
-		"ops":                           []string{"ins-ex(1000)", "ins-ex(4095)", "ins-ex(4096)", "ins-ex(9000)", "ins-noex(2000)", "ins-noex(5000)", "bigger(+3097, keeps Ex state)", "smaller(/2, keeps Ex state)"},
-		"pipeline_repeat":               maxRepeat,
-		"pipeline_flag_values":          []string{"no-extended-sig=false", "no-extended-sig=true"},
-		"pipeline_keys":                 pipeKeys,
+		"history_depth_namefold_pair":   pairDepth,
+		"history_depth_minifree":        pairDepth,
+		"namefold": map[string]any{
+			"alphabet":      cfbgen.FoldAlphabet,
+			"namefold-pair": "version 3/4 x every unordered pair of the alphabet as the two streams of the root storage (six code units, two common units, then the element, 'x' padding)",
+			"namefold":      "version 3/4 x element at the first unit / third unit / last two units x tree built balanced / by red-black insertion, ALL elements as sibling streams of the root storage",
+		},
+		"minifree": map[string]any{
+			"positions": []string{cfbgen.FreeStart, cfbgen.FreeMiddle, cfbgen.FreeTrailing},
+			"holes":     cfbgen.MiniHoles,
+			"product":   "version 3/4 x position of the unallocated mini sectors inside the mini stream x their number x input unsigned / carrying a 1500-byte signature and MsiDigitalSignatureEx in the mini stream; every history of the ops up to history_depth_minifree (signature sizes either side of the 4096 cutoff, with and without Ex); thorough tier: also the pipeline on each",
+		},
+		"ops":                  []string{"ins-ex(1000)", "ins-ex(4095)", "ins-ex(4096)", "ins-ex(9000)", "ins-noex(2000)", "ins-noex(5000)", "bigger(+3097, keeps Ex state)", "smaller(/2, keeps Ex state)"},
+		"pipeline_repeat":      maxRepeat,
+		"pipeline_flag_values": []string{"no-extended-sig=false", "no-extended-sig=true"},
+		"pipeline_keys":        pipeKeys,
 		"tar_member_sizes": map[string]any{
 			"boundaries":                    cfbgen.TarBoundaries,
 			"metasize_boundaries_this_tier": metaBounds,
@@ -1107,8 +1128,10 @@ func main() {
 		"state = (file, history of operations) reached by running the real InsertMSISignature+Close on a copy of the parent state's bytes (the state IS the file: relic keeps nothing else between operations); " +
 		"every history up to the depth bound is explored with no pruning; transition = one operation (or one relicx.SignStandalone in the pipeline sub-family). " +
 		"the families metasize / bigstream / tarpath put every member of the tar stream the file is uploaded as - the buffered metadata member of the extended signature, a stream, a member's path - on either side of the sizes an implementation would buffer with; on them the imprint is computed four ways (DigestMsiTar over MsiToTar, DigestMSI, the harness reference over the validator's parse, and - on the unsigned input and on every pipeline output - the Python reference ref/py/c05ref.py), extended and not. " +
+		"the families namefold / namefold-pair put, as sibling names of equal length, every pair of code-unit classes that the [MS-CFB] 2.6.4 order (length, then UPPER-cased UTF-16 code units) separates from an order by raw units, by lower-cased units or by code points (bounds.namefold.alphabet); the validator's own comparison decides whether the tree relic rebuilt is in order. " +
+		"the family minifree gives the MINI stream the free-sector dimension the layout family gives the regular sectors (unallocated mini sectors before / between / after the used ones); after every operation the validator requires every mini sector a stream uses to lie inside the mini stream the root entry declares ([MS-CFB] 2.6.3: ministream-too-short) and every allocated mini FAT entry to belong to a stream. " +
 		"distinct_nontrivial = distinct resulting containers (sha256 of the bytes) per file, plus distinct (key, file, flag sequence) pipeline runs")
-	run.Assume("upper-casing for the directory order uses Go's simple case mapping (unicode.ToUpper) per UTF-16 code unit; the family's names only contain ASCII, Latin-1 and caseless CJK-range code units, where every Unicode version agrees")
+	run.Assume("upper-casing for the directory order uses Go's simple case mapping (unicode.ToUpper) per UTF-16 code unit; the family's names only contain ASCII, Latin-1 and caseless CJK-range code units, where every Unicode version agrees, plus (namefold) U+FF21, which is its own upper case, and the surrogate pairs of U+10400 / U+10428, which 2.6.4 compares unit by unit unchanged")
 	run.Assume("the harness reference imprint skips the two signature streams in the root storage only; the nested-signame sub-family is therefore checked for tar==direct equality and invariance only")
 	run.Assume("the length of the extended-signature metadata follows the MsiDigitalSignatureEx convention (root: CLSID + state bits = 20 bytes; storage: name + CLSID + state bits + two timestamps; stream: name + 32-bit size + state bits + two timestamps = 24 bytes + name); the generator's arithmetic is checked on every metasize file against the number of bytes the harness reference actually pre-hashes")
 	run.Assume("a version-4 file needing a DIFAT sector (>= 446 MiB) is outside the bound; DIFAT growth is exercised with 512-byte sectors (thorough tier)")
